@@ -3,14 +3,16 @@ SPEC = {
     "lean_props": ["TunnoxModel.Props.C12"],
     "harness": {
         "pkg": "c12",
-        "shims": {"client": "internal/client"},
+        "shims": {"client": "internal/client", "mapping": "internal/client/mapping"},
         "runs": [{"args": [], "corpus": ""}],
     },
     "rule": ("the real iocopy.Bidirectional / iocopy.UDP between scripted fake endpoints whose every Read is gated by a "
              "scheduler (the schedule token order is part of the case and is forced on the two relay goroutines). TCP: all "
              "pairs of short scripts (0-3 chunks, empty reads, EOF/error tails, tail fused with the last chunk) x ALL "
              "interleavings of the two goroutines; refused writes at every index, full close racing the other direction, "
-             "chunks around the 32 KiB copy buffer. ENDPOINT KIND is a dimension of every TCP case: socket with CloseWrite / "
+             "chunks around the 32 KiB copy buffer; PASSIVE peers (end only after the relay signalled the end of the other "
+             "direction) against a side that FAILS (read error alone / fused with data, refused write) x every interleaving "
+             "x endpoint kinds. ENDPOINT KIND is a dimension of every TCP case: socket with CloseWrite / "
              "iocopy.NewReadWriteCloser(conn, conn, closeFn) with reader = writer = one Close-only transport conn (exactly how "
              "mapping/base.go, target_handler.go createTunnelRWC and socks5_tunnel.go build the tunnel side) / separate reader and "
              "Close-only writer objects / writer with neither; all 16 kind pairs x all interleavings of the half-close orders, "
@@ -18,6 +20,9 @@ SPEC = {
              "EOF and error tails, malformed/illegal-length and random streams, a flush-timer tick at every position of "
              "short datagram sequences, prefix/buffer size boundaries (255/256/65535/65536, half-full batch, 300 KB window), "
              "all interleavings of the two goroutines x every combination of endings (eof/err/blocked-until-closed). "
+             "ASYNCHRONOUS LOCAL SOCKET: iocopy.UDP against the real mapping.UDPVirtualConn (the localConn of tunnel.runDataCopy) "
+             "over a gated UDP socket: reads that end inside the next record x sends of the session's writeLoop delayed past "
+             "the following reads/compactions (every split position, sampled interleavings of t and s). "
              "SOCKS5 UDP-ASSOCIATE tunnel codec (udpTunnelConn, the listen-side peer of iocopy.UDP): the real SendPacket "
              "produces the wire, the real ReceivePacket reads it back; a burst coalesced into ONE read, k records per read, every "
              "split position, one-byte reads x every cut offset x both tails, prefix-boundary sizes, random bursts/partitions. "
@@ -36,9 +41,11 @@ SPEC = {
     "assumptions": [
         "WF (UDP): datagrams carried by the encoding have 1 <= len <= 65535 (zero-length datagrams are dropped, a 65536-byte read is mis-encoded as length 0: outside WF, replayed)",
         "WF (UDP): not both sides block forever (then the relay rightly never returns)",
+        "WF (TCP): not both peers passive; a passive peer sits behind an object with CloseWrite (for a transport without half-close — the wrapper kinds, as the tunnel side is built in production — a passive peer is released only by the final Close, which waits for both directions: model witness C12_tcp_passive_peer_needs_halfclose_witness, not run against the code)",
         "Writes to the UDP socket and to the tunnel succeed while the relay runs (write-error paths of iocopy.UDP are not modelled); TCP sinks refuse a whole Write (no short writes)",
         "a schedule step is one loop iteration of one goroutine (Read .. next Read), or the begin / the end of a Write that stays in progress; the two directions share no state except through the endpoints",
         "the real 20 ms flush ticker cannot be stopped: a run in which it fired outside the scheduled windows before a scheduled slow write is detected and repeated (stat reruns_unscheduled_tick)",
+        "asynchronous local socket (mapping.UDPVirtualConn): its send loop stops when the relay closes the session; the harness lets the socket take what is queued before the end of the tunnel is delivered (a datagram still queued at teardown may be dropped by the unchanged code: UDP loss at close, not counted against the property); no local->tunnel traffic and no fused tail in these cases",
         "NoOp transformer (the rate limiter is C02's subject)",
     ],
 }
